@@ -271,17 +271,22 @@ func runC16_2(c *core.Ctx) {
 			c.Check(okk, f.Name, "\"\" ↦ ErrInvalidNetworkAddress", cc.Pos(), "a missing scheme is rejected with the documented error", "the empty-scheme case no longer returns ErrInvalidNetworkAddress")
 		default:
 			// success case: last return hands back u.Scheme; earlier returns are ErrInvalidNetworkAddress (empty endpoint)
-			okk := len(rets) >= 2
-			for i, r := range rets {
-				if i == len(rets)-1 {
-					sel, isSel := ast.Unparen(r.Results[0]).(*ast.SelectorExpr)
-					if !(len(r.Results) == 3 && isSel && sel.Sel.Name == "Scheme" && flow.IsNil(f.Info, r.Results[2])) {
-						okk = false
-					}
-				} else if errOf(r) != invalid {
+			// every return of the case is either the success (u.Scheme as written, nil error) or the rejection of an
+			// empty endpoint; which of the two comes first in the source does not matter (C16.6 decides the edges)
+			nOK, nRej := 0, 0
+			okk := true
+			for _, r := range rets {
+				sel, isSel := ast.Unparen(r.Results[0]).(*ast.SelectorExpr)
+				switch {
+				case len(r.Results) == 3 && isSel && sel.Sel.Name == "Scheme" && flow.IsNil(f.Info, r.Results[2]):
+					nOK++
+				case errOf(r) == invalid:
+					nRej++
+				default:
 					okk = false
 				}
 			}
+			okk = okk && nOK >= 1 && nRej >= 1
 			c.Check(okk, f.Name, "case "+strings.Join(lits, ",")+": scheme returned as written, empty endpoint ↦ ErrInvalidNetworkAddress", cc.Pos(), "success returns u.Scheme; the empty-endpoint test precedes it",
 				"a supported-scheme case no longer returns u.Scheme unchanged on success, or no longer rejects an empty endpoint with ErrInvalidNetworkAddress")
 			success = append(success, lits...)
